@@ -193,3 +193,25 @@ def diff_parsed_numeric(a, b, rel=1e-12):
     if a['attrs'] != b['attrs']:
         return 'file attributes model=%s impl=%s' % (a['attrs'], b['attrs'])
     return None
+
+
+def wellformed(f):
+    """the well-formedness predicate of the property, on the real object"""
+    for vk, v in f.variables.items():
+        for d in v.dimensions:
+            if d not in f.dimensions:
+                return 'variable %s has dimension %s which the file does not have' % (vk, d)
+        want = tuple(len(f.dimensions[d]) for d in v.dimensions)
+        if tuple(np.shape(v[...])) != want:
+            return 'variable %s has shape %s, its dimensions %s have lengths %s' % (vk, np.shape(v[...]), v.dimensions, want)
+        for a in v.ncattrs():
+            try:
+                getattr(v, a)
+            except Exception:
+                return 'attribute %s of %s is listed but not retrievable' % (a, vk)
+    for a in f.ncattrs():
+        try:
+            getattr(f, a)
+        except Exception:
+            return 'global attribute %s is listed but not retrievable' % a
+    return None
